@@ -315,6 +315,21 @@ def check(ctx):
                            msg="the allocator leaves its loop over the candidates by %s on a path where the candidate in hand was not found free "
                                "(conditions %s): an identifier still in use is handed out" % (
                                    bp.exit_kind(), [repr(c) for c in own_conds][-3:]))
+        # every registry is looked at whatever else is the case: a scan of a registry that sits under a test on the factory's own state
+        # (the profile, a flag) leaves that registry unread for the other outcome of the test
+        flagged = set()
+        for x in reads:
+            rg = x.a.get("reg") or next((sub[1] for sub in subterms(x.a.get("iter") or ()) if isinstance(sub, tuple) and sub[:1] == ("regtop",)), None)
+            for c in x.conds:
+                for sub in subterms(c.term):
+                    if isinstance(sub, tuple) and len(sub) == 3 and sub[0] == "attr" and sub[1] == FAC and isinstance(sub[2], str) \
+                            and sub[2] != "id" and not sub[2].startswith("window") and not sub[2].startswith("queue"):
+                        if (rg, sub[2]) not in flagged:
+                            flagged.add((rg, sub[2]))
+                            ctx.ob("ID-INUSE", "%s looks at %s unconditionally" % (short(fq), rg), False, where=where(x), function=x.func,
+                                   construct="%s/conditional-scan/%s" % (fq, rg),
+                                   msg="the in-use scan reads %s only under a test on the factory's %s (%s): for the other outcome the identifiers "
+                                       "of the requests waiting there are handed out again" % (rg, sub[2], c.text if hasattr(c, "text") else ""))
         regs_read = set()
         for x in reads:
             if x.a.get("reg"):
